@@ -15,12 +15,19 @@ Arguments STimer {P}.
    (in creation order of the shards; shards that exported nothing do not show) its requests in order *)
 Definition run_obs (P : Type) := (list N * list (list (list N) * list P))%type.
 
+(* wire form of a configuration: every number is an [N] (the case terms are printed inside one
+   [( ... )%N]); the timeout is (magnitude, negative?) in logical units *)
+Inductive hcfg := HC (timeout : N) (neg : bool) (size max : N) (keys : list str) (limit : N).
+Definition cfg_of (h : hcfg) : cfg :=
+  let 'HC t neg sz mx ks lim := h in
+  Cfg (if neg then Z.opp (Z.of_N t) else Z.of_N t) (N.to_nat sz) (N.to_nat mx) ks (N.to_nat lim).
+
 Inductive vcase :=
-| CSplit3 (sig size : nat) (src d k : payload3 N)      (* sig 0 = logs, 1 = traces; d = returned, k = src afterwards *)
-| CSplit4 (size : nat) (src d k : payload4 N)
-| CRun3 (sig : nat) (c : cfg) (script : list (sop (payload3 N))) (obs : run_obs (payload3 N))
-| CRun4 (c : cfg) (script : list (sop (payload4 N))) (obs : run_obs (payload4 N))
-| CValidate (c : cfg) (obs : N).
+| CSplit3 (sig size : N) (src d k : payload3 N)      (* sig 0 = logs, 1 = traces; d = returned, k = src afterwards *)
+| CSplit4 (size : N) (src d k : payload4 N)
+| CRun3 (sig : N) (c : hcfg) (script : list (sop (payload3 N))) (obs : run_obs (payload3 N))
+| CRun4 (c : hcfg) (script : list (sop (payload4 N))) (obs : run_obs (payload4 N))
+| CValidate (c : hcfg) (obs : N).
 
 (* ---- equality on payloads ---------------------------------------------------------------------- *)
 Definition ctx_eqb (a b : ctx) : bool := N.eqb (fst a) (fst b) && N.eqb (snd a) (snd b).
@@ -56,7 +63,7 @@ Section Run.
     | SConsume md p =>
         let st1 := bp_step count split c st (LConsume 0 md p) in
         (map (sh_recv count split c 0) (fst st1), snd st1)
-    | STimer => (map (sh_timer split c 0) (fst st), snd st)
+    | STimer => (map (fun s => sh_timer split c (s_deadline s) s) (fst st), snd st)   (* time advances to each deadline *)
     end.
 
   Definition run_script (ops : list (sop (list R))) : run_obs (list R) :=
@@ -71,15 +78,15 @@ Definition obs_eqb {P} (peqb : P -> P -> bool) (a b : run_obs P) : bool :=
   list_eqb N.eqb (fst a) (fst b) &&
   list_eqb (fun x y => list_eqb (list_eqb N.eqb) (fst x) (fst y) && list_eqb peqb (snd x) (snd y)) (snd a) (snd b).
 
-Definition split3_of (sig : nat) := match sig with 0 => @split_logs N | _ => @split_traces N end.
+Definition split3_of (sig : N) := match sig with 0%N => @split_logs N | _ => @split_traces N end.
 
 Definition model_out (v : vcase) : vcase :=
   match v with
-  | CSplit3 sig size src _ _ => let '(d, k) := split3_of sig size src in CSplit3 sig size src d k
-  | CSplit4 size src _ _ => let '(d, k) := split_metrics size src in CSplit4 size src d k
-  | CRun3 sig c script _ => CRun3 sig c script (run_script (@count3 N) (split3_of sig) c script)
-  | CRun4 c script _ => CRun4 c script (run_script (@count4 N) (@split_metrics N) c script)
-  | CValidate c _ => CValidate c (validate c)
+  | CSplit3 sig size src _ _ => let '(d, k) := split3_of sig (N.to_nat size) src in CSplit3 sig size src d k
+  | CSplit4 size src _ _ => let '(d, k) := split_metrics (N.to_nat size) src in CSplit4 size src d k
+  | CRun3 sig c script _ => CRun3 sig c script (run_script (@count3 N) (split3_of sig) (cfg_of c) script)
+  | CRun4 c script _ => CRun4 c script (run_script (@count4 N) (@split_metrics N) (cfg_of c) script)
+  | CValidate c _ => CValidate c (validate (cfg_of c))
   end.
 
 Definition check_case (v : vcase) : bool :=
